@@ -451,7 +451,13 @@ func discharge(obls []*Obligation, opt dischargeOpts) {
 				o.Output = fmt.Sprintf("script of %d bytes exceeds the size cap; split %s", len(body), o.Func)
 				return
 			}
-			r := solve(opt.OutDir, o.Name, body, opt.TimeoutS, opt.Seed, false, opt.CrossCheck && !o.Cover, nil)
+			tmo := opt.TimeoutS
+			if o.Cover && tmo > 12 {
+				// a cover (vacuity) obligation passes unless it is refuted: waiting longer for a
+				// witness that quantified hypotheses rarely yield only costs time
+				tmo = 12
+			}
+			r := solve(opt.OutDir, o.Name, body, tmo, opt.Seed, false, opt.CrossCheck && !o.Cover, nil)
 			o.Result, o.Solver, o.TimeS, o.Output = r.Result, r.Solver, r.TimeS, r.Output
 		}()
 	}
